@@ -3751,6 +3751,8 @@ def svd(
     a_labels = a._labels
     # ensure complete blocking
     piped_axes, a = a.as_completely_blocked()
+    if not np.issubdtype(a.dtype, np.inexact):
+        a = a.astype(np.float64)  # the factors of an integer matrix are floats
 
     # figure out qtotal_LR
     qtotal_L, qtotal_R = qtotal_LR
@@ -4191,6 +4193,8 @@ def qr(a, mode='reduced', inner_labels=[None, None], cutoff=None, pos_diag_R=Fal
     a_labels = a._labels
     label_Q, label_R = inner_labels
     piped_axes, a = a.as_completely_blocked()  # ensure complete blocking & sort
+    if not np.issubdtype(a.dtype, np.inexact):
+        a = a.astype(np.float64)  # the factors of an integer matrix are floats
     q_data = []
     r_data = []
     i0 = 0
@@ -4343,6 +4347,8 @@ def orthogonal_columns(a, new_label=None):
         right_leg = LegCharge(a.chinfo, [0], np.zeros([0, a.chinfo.qnumber], dtype=QTYPE), a.legs[1].qconj)
         return Array([a.legs[0], right_leg], a.dtype, a.qtotal, [a_labels[0], new_label])
     piped_axes, a = a.as_completely_blocked()  # ensure complete blocking & sort
+    if not np.issubdtype(a.dtype, np.inexact):
+        a = a.astype(np.float64)  # the factors of an integer matrix are floats
     left_leg = a.legs[0]
     left_block_sizes = left_leg.get_block_sizes()
     ortho_data = []
